@@ -1,5 +1,6 @@
 import math
-from .types import Quantity, is_number, get_external_type_name, Array, Combinatoric
+from .types import (Quantity, is_number, get_external_type_name, Array,
+    Combinatoric, simplify_type)
 from .functions import dispatch
 from .units import lookup_unit, QSPACE, InvalidPrefixError
 from .probability import ComparisonOp
@@ -113,7 +114,8 @@ def make_quantity(magnitude, unit_signature):
     if not is_number(magnitude):
         raise EvalError(f"Tried to add units on top of existing units. Only a magnitude can be tagged with units.")
     qv, multiple, offset = compose_units(unit_signature)
-    return Quantity(multiple*magnitude + offset, qv)
+    # E.g. 1000 mm is Fraction(1, 1), deliver it as the integer 1.
+    return simplify_type(Quantity(multiple*magnitude + offset, qv))
 
 def convert_quantity(quantity, unit_sig):
     qv, multiple, offset = compose_units(unit_sig)
